@@ -65,6 +65,8 @@ class Lin:
             return mid if t[1].startswith(".0") else add(self.len_lin(t[0][1]), mid, -1)
         if isinstance(t, tuple) and t and t[0] == "array":
             return {1: len(t) - 1} if len(t) > 1 else {}
+        if isinstance(t, tuple) and t and isinstance(t[0], str) and re.match(r"[ui](8|16|32|64|128)::to_[bln]e_bytes$", t[0]):
+            return {1: int(re.match(r"[ui](\d+)", t[0]).group(1)) // 8}
         if is_index(t):
             r = t[2]
             if isinstance(r, tuple):
@@ -128,6 +130,28 @@ def eq_constraints(L, op, a, b, v):
     return []
 
 
+class _Failed(list):
+    """failure list of a Walker: entries added while the walker is muted (obligation outside `only`) are dropped"""
+
+    def __init__(self, w):
+        list.__init__(self)
+        self.w = w
+
+    def append(self, x):
+        if not self.w.muted:
+            list.append(self, x)
+
+
+def origin_of(e):
+    """the function a logged call / assertion belongs to"""
+    if e[0] == "assert":
+        return e[8] if len(e) > 8 else None
+    if e[0] == "call" and isinstance(e[4], str) and "@" in e[4]:
+        site = e[4].split("@", 1)[1]
+        return re.sub(r":bb\d+(~.*)?$", "", site)
+    return None
+
+
 class Walker:
     """replays one path; `facts` grows with the comparisons decided and the contracts of the callees met"""
 
@@ -138,9 +162,12 @@ class Walker:
         self.contracts = [(re.compile(rx), f) for rx, f in contracts]
         self.upper = upper or (lambda name: None)
         self.leaf_facts = leaf_facts or (lambda name: [])   # extra constraints about a leaf, by its printed name
-        self.failed = []
+        self.failed = _Failed(self)
         self.n = 0
         self.proved = []
+        self.only = None        # set of function paths: only obligations originating in them are proved / reported
+        self.muted = False
+        self.n_only = 0
 
     # --- proving
     def _with_bounds(self, goal):
@@ -159,7 +186,10 @@ class Walker:
         return self.facts + extra
 
     def prove(self, what, goal):
+        if self.muted:
+            return True
         self.n += 1
+        self.n_only += 1
         if fm.entails(self._with_bounds(goal), goal):
             self.proved.append(what)
             return True
@@ -167,7 +197,10 @@ class Walker:
         return False
 
     def prove_eq(self, what, d):
+        if self.muted:
+            return True
         self.n += 1
+        self.n_only += 1
         fs = self._with_bounds(d)
         if fm.entails(fs, d) and fm.entails(fs, {k: -v for k, v in d.items()}):
             self.proved.append(what)
@@ -211,11 +244,14 @@ class Walker:
 
     def assertion(self, e, pos):
         """a MIR Assert terminator logged by E2 (log_asserts): bounds check / arithmetic overflow / division"""
-        _k, msg, binop, ops, tys, cond, expected, line = e
+        _k, msg, binop, ops, tys, cond, expected, line = e[:8]
         ops = [C.expr_of(self.pa, o, 0, pos) for o in ops]
         what = "%s%s at line %s" % (msg, (":" + binop) if binop else "", line)
+        if self.muted:
+            return
         if cond is not None and cond == (1 if expected else 0):
             self.n += 1                         # the condition folded to the expected constant
+            self.n_only += 1
             self.proved.append(what)
             return
         if msg == "BoundsCheck" and len(ops) == 2:
@@ -261,6 +297,8 @@ class Walker:
         stop = len(pa.log) if stop is None else stop
         for pos in range(start, stop):
             e = pa.log[pos]
+            if self.only is not None:
+                self.muted = origin_of(e) not in self.only
             if e[0] == "cmp":
                 a, b = C.expr_of(pa, e[3], 0, pos), C.expr_of(pa, e[4], 0, pos)
                 cmps[e[1]] = (e[2], a, b)
@@ -307,5 +345,7 @@ class Walker:
             elif e[0] in ("write", "write-elem") and len(e) > 3:
                 self.arith(C.expr_of(pa, e[3], 0, pos))
         if with_ret:
+            self.muted = self.only is not None
             self.arith(C.expr_of(pa, pa.ret))
+        self.muted = False
         return self
